@@ -608,4 +608,18 @@ def brand_obligations(chk):
             chk.obligation("C12_callbacks: callback-taking functions whose closure bound does not bind the brand with for<'gc>", False,
                            ", ".join(bad) or out[-1200:])
             chk.cov["c20_brand_offenders"] = bad
+            # search for a concrete failing input: the cross-arena programs of the C12 probe corpus (a pointer, a
+            # context or a handle of one arena used in another) must all be rejected by rustc
+            try:
+                okh, _, host = host_build()
+                if okh:
+                    ids = [q["id"] for q in list_probes("c12") if "cross_arena" in (q.get("item") or "") or "unify_two" in (q.get("item") or "")]
+                    res = run_probes("c12", host, only=set(ids))
+                    chk.cov["c20_cross_arena_probes"] = {i: ("accepted" if r["accepted"] else "rejected") for i, r in sorted(res.items())}
+                    for i, r in sorted(res.items()):
+                        if r["expect"] == "reject" and r["accepted"] and not r.get("known"):
+                            chk.violation("C20: rustc ACCEPTS the safe program %s (%s): values of one arena are used in another arena" % (i, r.get("rule")),
+                                          "// probe %s -- compile with: rustc --edition 2024 --extern gc_arena=<rlib of /repo>\n%s" % (r["path"], open(r["path"]).read()))
+            except Exception as e:  # pragma: no cover
+                chk.notes.append("cross-arena probe search failed: %s" % e)
         return good
